@@ -94,3 +94,45 @@ Proof.
   - apply andb_true_iff in H. destruct H as [H _]. apply negb_true_iff in H. now apply ty_mem_in.
   - apply andb_true_iff in H. destruct H as [_ H]. now apply IH.
 Qed.
+
+(* a registration with a fresh key and a fresh (pointer-stripped) type is accepted, and from
+   then on the type is found under the key and the key under the type *)
+Lemma m_lookup_notin : forall reg k, ~ In k (map fst reg) -> m_lookup reg k = None.
+Proof.
+  induction reg as [|[k0 t0] r IH]; simpl; intros k H; [reflexivity|].
+  destruct (String.eqb k k0) eqn:E.
+  - apply String.eqb_eq in E. subst. exfalso. apply H. now left.
+  - apply IH. intro Hin. apply H. now right.
+Qed.
+Lemma rm_lookup_notin : forall reg t, ~ In t (map snd reg) -> rm_lookup reg t = None.
+Proof.
+  induction reg as [|[k0 t0] r IH]; simpl; intros t H; [reflexivity|].
+  destruct (ty_eqb t t0) eqn:E.
+  - apply ty_eqb_eq in E. subst. exfalso. apply H. now left.
+  - apply IH. intro Hin. apply H. now right.
+Qed.
+Lemma rm_lookup_snoc : forall reg k t, rm_lookup reg t = None -> rm_lookup (reg ++ [(k, t)]) t = Some k.
+Proof.
+  induction reg as [|[k0 t0] r IH]; simpl; intros k t H.
+  - now rewrite ty_eqb_refl.
+  - destruct (ty_eqb t t0); [discriminate H | now apply IH].
+Qed.
+Lemma m_lookup_snoc : forall reg k t, m_lookup reg k = None -> m_lookup (reg ++ [(k, t)]) k = Some t.
+Proof.
+  induction reg as [|[k0 t0] r IH]; simpl; intros k t H.
+  - now rewrite String.eqb_refl.
+  - destruct (String.eqb k k0); [discriminate H | now apply IH].
+Qed.
+Lemma register_accepts_fresh : forall reg k t,
+  ~ In k (map fst reg) -> ~ In (snd (strip_ptr t)) (map snd reg) ->
+  exists reg', register reg k t = Ok reg' /\
+               rm_lookup reg' (snd (strip_ptr t)) = Some k /\ m_lookup reg' k = Some (snd (strip_ptr t)) /\
+               forall t0 k0, rm_lookup reg t0 = Some k0 -> rm_lookup reg' t0 = Some k0.
+Proof.
+  intros reg k t Hk Ht. unfold register.
+  rewrite (m_lookup_notin _ _ Hk), (rm_lookup_notin _ _ Ht). simpl.
+  eexists. split; [reflexivity|]. split; [|split].
+  - apply rm_lookup_snoc. now apply rm_lookup_notin.
+  - apply m_lookup_snoc. now apply m_lookup_notin.
+  - intros t0 k0 H. now apply rm_lookup_app.
+Qed.
